@@ -106,7 +106,7 @@ package ipfsproxy
 //@   ensures [only-hash-refused] qget(q, "only-hash") == "true" ==> addN == old(addN) && rpcOK == old(rpcOK)
 //@   ensures [bad-options-refused] params == nil ==> addN == old(addN)
 //@   ensures [at-most-one-add] addN == old(addN) || addN == old(addN) + 1
-//@   modifies httpResponses, httpLastStatus, rpcN, rpcOK, mutOK, rpcLastSvc, rpcLastMethod, rpcLastArg, addN, heap(api.Pin), heap(api.AddParams)
+//@   modifies httpResponses, httpLastStatus, rpcN, rpcOK, mutOK, rpcLastSvc, rpcLastMethod, rpcLastArg, addN, heap(api.Pin), heap(api.AddParams), optionRefused
 
 // the {arg} path style: the inner handler sees ?arg=<path argument> and the rest of the query unchanged
 //@ fnvalue slashHandler.origHandler(w, r)
